@@ -215,6 +215,10 @@ func (g *bclGen) descriptionBlock(depth int) {
 			words := make([]string, w)
 			for j := range words {
 				words[j] = g.pick([]string{"lorem", "ipsum", "a", "é", "supercalifragilistic", "x.", "//", "|", "\"q\"", "{", "1", "tab\tbed"})
+				if g.rng.Intn(40) == 0 {
+					// a word that alone is as long as a line may be (a URL, a type name)
+					words[j] = "https://example.com/" + strings.Repeat("very-long-path-segment/", 3+g.rng.Intn(3)) + "end"
+				}
 			}
 			g.sb.WriteString(strings.Join(words, g.pick([]string{" ", " ", "  "})))
 		}
